@@ -116,6 +116,7 @@ type Step struct {
 	R     *Reader   `json:"r,omitempty"`
 	Since uint64    `json:"since,omitempty"`
 	Page  *Page     `json:"page,omitempty"`
+	Obs   *Obs      `json:"obs,omitempty"` // backup steps: answers required of the restored hub
 }
 
 type ChgObs struct {
